@@ -10,13 +10,14 @@
   External routines are supplied by the harness as tables computed by the REAL library: the window callable
   (`np.kaiser(M, beta)` / `win(M)` per requested M — a request the table does not hold, or a Kaiser request with another beta,
   yields an empty array), `_build_Q(L, order)` per (L, order), `_select_backend(K, hint)` per K.
-  Kernels: the translated Numba kernels (Gen/CoreKernels) and CUDA wrappers (Gen/CudaKernels); the `_np` names are served by the
-  translated Numba kernels too (the NumPy fallbacks differ from them by rounding only; their own translation is another region).
+  Kernels: all 18 names run translated code — the Numba kernels (Gen/CoreKernels), the CUDA wrappers (Gen/CudaKernels) and the
+  NumPy fallbacks (Gen/NumpyKernels, default `_chunk`), so the Float run also reflects WHICH kernel the translated dispatch called.
 -/
 import SpecKitV.Drv.Base
 import SpecKitV.Gen.CoreKernels
 import SpecKitV.Gen.CudaKernels
 import SpecKitV.Gen.LpsdCore
+import SpecKitV.Gen.NumpyKernels
 
 namespace Drv.ExtLpsdCore
 open Drv
@@ -27,7 +28,17 @@ def numba6 : NpLC.Kernels6 Float :=
 def cuda6 : NpLC.Kernels6 Float :=
   ⟨Gen._stats_win_only_auto_cuda, Gen._stats_win_only_csd_cuda, Gen._stats_detrend0_auto_cuda, Gen._stats_detrend0_csd_cuda,
    Gen._stats_poly_auto_cuda, Gen._stats_poly_csd_cuda⟩
-def family : NpLC.KernelFamily Float := NpLC.KernelFamily.ofBackends numba6 cuda6 numba6
+/-- the NumPy fallbacks as TRANSLATED (Gen/NumpyKernels), called as analysis.py calls them: default `_chunk` of each signature
+    (taken from the generated `*_chunk_default`), `np.empty` contents = NaN (every entry is overwritten before it is read) -/
+def garbage : Nat → Nat → Float := fun _ _ => nan
+def np6 : NpLC.Kernels6 Float :=
+  ⟨fun x s L w om => Gen._stats_win_only_auto_np x s L w om Gen._stats_win_only_auto_np_chunk_default garbage,
+   fun x1 x2 s L w om => Gen._stats_win_only_csd_np x1 x2 s L w om Gen._stats_win_only_csd_np_chunk_default garbage,
+   fun x s L w om => Gen._stats_detrend0_auto_np x s L w om Gen._stats_detrend0_auto_np_chunk_default garbage,
+   fun x1 x2 s L w om => Gen._stats_detrend0_csd_np x1 x2 s L w om Gen._stats_detrend0_csd_np_chunk_default garbage,
+   fun x s L w om Q => Gen._stats_poly_auto_np x s L w om Q Gen._stats_poly_auto_np_chunk_default garbage,
+   fun x1 x2 s L w om Q => Gen._stats_poly_csd_np x1 x2 s L w om Q Gen._stats_poly_csd_np_chunk_default garbage⟩
+def family : NpLC.KernelFamily Float := NpLC.KernelFamily.ofBackends numba6 cuda6 np6
 
 def rep {β : Type} (n : Nat) (one : M β) : M (Array β) := do
   let mut a := Array.mkEmpty n
